@@ -138,7 +138,7 @@ theorem C11_prefix_strict_tileset (b : Bytes) (f : Bmp) (hb : b.length < W64) (h
       split at h
       · rename_i o rest hp
         subst h
-        have hc := (custom_ok hp).2.2.2.2.2.2
+        have hc := (custom_ok hp).2.2.2.2.2.2.1
         refine ⟨by omega, ?_⟩
         intro k hk
         rw [read_eq _ (hlt k)]
